@@ -382,6 +382,15 @@ class Result:
         }
         ev["coverage"].update(self.extra)
         json.dump(ev, open(os.path.join(VERIF, "evidence", f"{self.prop}.json"), "w"), indent=1, ensure_ascii=False)
+        if _ALT:
+            # a run against a scratch copy of the repository (VERIF_REPO: private mutation testing) has regenerated the
+            # shared Extracted/*.lean tables from that copy: put the tables of /repo back for whoever builds next
+            try:
+                env = {k: v for k, v in os.environ.items() if k != "VERIF_REPO"}
+                subprocess.run([sys.executable, os.path.join(VERIF, "scripts", "extract_all.py")], cwd=VERIF, env=env,
+                               capture_output=True, timeout=600)
+            except Exception:
+                pass
         for l in lines:
             log(l)
         log(f"[{self.prop}] tier={self.tier} seed={self.seed} obligations={n_ok}/{n_ob} evaluations={self.evaluations} "
